@@ -54,6 +54,9 @@ func c11Corpus(ctx *core.Ctx) []c11Input {
 	for _, t := range repoSamples(ctx) {
 		add(t.Name, dsl.Render(t.Toks, dsl.Pretty))
 	}
+	for _, t := range specialTexts() {
+		add(t.Name, t.Raw)
+	}
 	filepath.WalkDir(ctx.RepoDir, func(p string, d os.DirEntry, err error) error {
 		if err == nil && !d.IsDir() && strings.HasSuffix(p, ".dsl") {
 			if b, e := os.ReadFile(p); e == nil {
